@@ -56,7 +56,7 @@ Print Assumptions C15_interp_between.
    increases), bins with fewer than c01 = 0.1 objects are untouched, and the
    reported ejecta is exactly the mass removed *)
 Theorem C15_kicks_bookkeeping : forall J c01 MN rets MN' ej,
-  length rets = length MN -> Forall (fun r => 0 <= r <= 1) rets -> Forall wfbin MN ->
+  length rets = length MN -> List.Forall (fun r => 0 <= r <= 1) rets -> List.Forall wfbin MN ->
   unbound_natal_kicks (O:=R_ops J) c01 MN rets = (MN', ej) ->
   length MN' = length MN /\
   (forall j m n r, nth_error MN j = Some (m, n) -> nth_error rets j = Some r ->
